@@ -263,6 +263,14 @@ class RepeatedValueWrapper(MutableSequence[_V], Generic[_M, _V]):
         raw_index = self._raw_indexes[index]
         return self._from_raw_type(self._raw_wrapper.pop(raw_index))
 
+    def reverse(self) -> None:
+        # Moves the raw models (popped last to first, re-inserted at the same raw positions first to last), so that
+        # no attached node is assigned and models of other types keep their places.
+        raw_indexes = list(self._raw_indexes)
+        values = [self._raw_wrapper.pop(raw_index) for raw_index in reversed(raw_indexes)]
+        for raw_index, value in zip(raw_indexes, values):
+            self._raw_wrapper.insert(raw_index, value)
+
     def remove(self, value: _V) -> None:
         for raw_index in self._raw_indexes:
             if self._from_raw_type(self._raw_wrapper[raw_index]) == value:
